@@ -67,6 +67,17 @@ HARNESSES.append(_h('c16_foreign_module', 'a class of the module derives from a 
                     dict(NT=3, LIBSETS='aBc-', CODE_FROM=0, CODE_TO=5, SKIP3=1, ncases=4),
                     dict(NT=3, LIBSETS='aBc-;Abc-', CODE_FROM=0, CODE_TO=10, SKIP3=1, ncases=16)))
 
+# ---- symbolic dependency graphs (c16_graph.cxx) ----------------------------------------------------------------
+def _g(hid, nl, one, zero, desc, unwind=12, fdc=None, cap=600, tiers=('quick', 'thorough'), td=0, extra_us=None):
+    us = dict(_US)
+    us.update({_FDC: fdc or nl + 2, _FDC + '.0': nl + 1})
+    us.update(extra_us or {})
+    d = dict(NL=nl, E_ONE='%du' % one, E_ZERO='%du' % zero, E_TYPEDEF='%du' % td)
+    return dict(id=hid, property='C16', src='c16_graph.cxx', entry='harness_c16_graph', tus=_TUS, cut=_CUT,
+                models=['printf.c'], cbmc_flags=_FS, desc=desc, domain='', nonterm_is_violation=True,
+                bounds=dict(quick=dict(defs=d, unwind=unwind, unwindset=us, cap=cap)), tiers=tiers, oracle='')
+HARNESSES.append(_g('c16_dev2', 2, 0, 0, 'dev'))
+
 PROPERTY_INFO = {'C16': {'level': 'model_checking',
          'explanation': 'execution of the real library-ordering code of interrogate_module (write_python_table_native, find_dependency_cycle) by the '
                         'CBMC engine over a model of the interrogate database query interface; the databases are enumerated by concrete loops '
